@@ -52,7 +52,8 @@ PINNED = [
     ('subst', r'if \(equal\(tok, "#"\) && !is_objlike\) \{.*?'
               r'if \(equal\(tok, ","\) && equal\(tok->next, "##"\)\) \{.*?'
               r'if \(equal\(tok, "##"\)\) \{ if \(cur == &head\) error_tok\(.*?if \(tok->next->kind == TK_EOF\) error_tok\(.*?'
-              r'MacroArg \*arg = find_arg\(args, tok\); if \(arg && equal\(tok->next, "##"\)\) \{.*?'
+              r'MacroArg \*arg = find_arg\(args, tok\); if \(arg && equal\(tok->next, "##"\)\) \{ Token \*rhs = tok->next->next; '
+              r'if \(rhs->kind == TK_EOF\) error_tok\(tok->next, "\'##\' cannot appear at end of macro expansion"\);.*?'
               r'if \(equal\(tok, "__VA_OPT__"\) && equal\(tok->next, "\("\)\) \{.*?subst\(arg->tok, args, false\).*?'
               r'if \(arg\) \{ if \(!arg->expanded\) arg->expanded = preprocess2\(add_hideset\(arg->tok, NULL\)\);.*?'
               r'cur = cur->next = copy_token\(tok\); tok = tok->next; continue; \} cur->next = tok; return head\.next;',
@@ -82,7 +83,7 @@ PINNED = [
     ('read_macro_arg_one', r'if \(level == 0 && equal\(tok, "\)"\)\) break; if \(level == 0 && !read_rest && equal\(tok, ","\)\) break; '
                            r'if \(tok->kind == TK_EOF\) error_tok\(tok, "premature end of input"\); '
                            r'if \(equal\(tok, "\("\)\) level\+\+; else if \(equal\(tok, "\)"\)\) level--;', 'read_macro_arg_one loop'),
-    ('read_macro_definition', r'if \(!tok->has_space && equal\(tok, "\("\)\) \{', 'function-like rule of read_macro_definition'),
+    ('read_macro_definition', r'if \(!tok->has_space && !tok->at_bol && equal\(tok, "\("\)\) \{', 'function-like rule of read_macro_definition'),
     ('quote_string', r'if \(str\[i\] == \'\\\\\' \|\| str\[i\] == \'"\'\) \*p\+\+ = \'\\\\\'; \*p\+\+ = str\[i\];', 'quote_string escaping'),
 ]
 
